@@ -56,7 +56,7 @@ THEOREMS = [
     "dms_roundtrip_rad", "dms_rad_components_in_range", "dms_rad_small_negative",
     "lagrange_nodes", "lagrange_linear_in_y", "lagrange_perm_invariant", "lagrange_reproduces_poly", "lagrange_ndim",
     "scaling_irrelevant",
-    "linear_nodes", "linear_linear_in_y", "linear_perm_invariant", "linear_ndim", "linear_reproduces_affine",
+    "linear_nodes", "linear_linear_in_y", "linear_perm_invariant", "linear_ndim", "linear_reproduces_affine", "linear_extrapolate_defined",
     "dop_pythagoras", "dop_pythagoras_geometry", "dop_perm_invariant", "dop_azimuth_invariant",
     "dop_square_case", "dop_square_wrong_product_refuted",
     "velocity_perp_position", "velocity_perp_pole", "velocity_perp_real", "spherical_cartesian_roundtrip",
